@@ -42,7 +42,7 @@ func genC08(t *rapid.T) C08Case {
 	if rapid.Bool().Draw(t, "withEncKey") {
 		sp.Enc = h.KeyCfg{Mode: "tls", Field: h.CertRef{Key: "E1", Window: "wide"}}
 	}
-	g := h.GenGenuine(sp, signers, h.ModelOpts{Text: txt, AttrText: atxt}, true).Draw(t, "issue")
+	g := h.GenGenuine(sp, signers, h.ModelOpts{Text: txt, AttrText: atxt, Embedded: true}, true).Draw(t, "issue")
 	if rapid.IntRange(0, 9).Draw(t, "bigGroupList") == 0 {
 		// a long multi-valued attribute (group memberships): several hundred elements, still below the
 		// dependency's 1000-element traversal budget
@@ -235,6 +235,9 @@ func checkC08(c C08Case) h.Outcome {
 		o.Classes = append(o.Classes, "c14n:"+shortAlg(c.Issue.RespSig.C14N), "method:"+shortAlg(c.Issue.RespSig.Method))
 	}
 	for _, s := range c.Issue.AsrtSig {
+		if s == nil {
+			continue
+		}
 		o.Classes = append(o.Classes, "c14n:"+shortAlg(s.C14N), "method:"+shortAlg(s.Method))
 		break
 	}
@@ -300,6 +303,12 @@ func checkC08(c C08Case) h.Outcome {
 		case !resp.SignatureValidated && (!allFlagged || c.Issue.Placement == "response"):
 			o.Violation = h.V("flag-mismatch", "layout %d: Response flag false but assertion flags %v (placement %s)", i, allFlagged, c.Issue.Placement)
 			return o
+		}
+		for k := range resp.Assertions {
+			if resp.Assertions[k].SignatureValidated && c.Issue.OwnSig(k) == nil {
+				o.Violation = h.V("flag-mismatch", "layout %d: assertion %d is reported signature-validated but carries no signature of its own (placement %s)", i, k, c.Issue.Placement)
+				return o
+			}
 		}
 		results = append(results, resp)
 		sp2 := c.SP.Build()
